@@ -4,7 +4,7 @@ set -e
 cd "$(dirname "$0")"
 export CARGO_NET_OFFLINE=true
 mkdir -p .cache evidence replays
-ln -sfn "${ZX_REPO:-/repo}" .cache/repo
+./check --link
 (cd lean && lake build)
 (cd harness && cargo build --release --offline)
 echo "setup done"
